@@ -23,7 +23,7 @@ CHECKS.update({
                  "with the Go signing body are Lean theorems for every VAA value; the contract offset tables are regenerated from "
                  "Messages.sol / governance.ral on every run and compared by decide; the Go serializer is tied to the model by a "
                  "differential run on generated VAAs and single-field mutations."),
-        "note": ("Trusted: Lean kernel; Keccak-256 as an oracle (no collision-resistance assumption is used: theorems stop at the signing "
+        "note": ("Trusted: Lean kernel; Keccak-256 as an oracle (no collision-resistance assumption is used: theorems stop at the signing  The concurrency child process has a 15 s watchdog that fires only on a call that never returns. "
                  "body); checks/c04gen.py extraction; contracts not executed; differential run samples inputs."),
     },
     "C05": {
@@ -108,7 +108,7 @@ CHECKS.update({
                  "ticks after 5 min, submitted ones two ticks after 1 h; the retry budget strictly decreases on every due tick and a spent "
                  "budget deletes. The real handleCleanup is replayed with time simulated by shifting recorded instants across every "
                  "threshold, and the schedule Spec is evaluated on the implementation's own before/after summaries."),
-        "note": ("Trusted: Lean kernel; integer-nanosecond time (delta.Hours()/Minutes() float comparisons are exact at the thresholds); "
+        "note": ("Trusted: Lean kernel; integer-nanosecond time (delta.Hours()/Minutes() float comparisons are exact at the thresholds);  The 10 050-entry flood of the scale family is not replayed by the model (one `flood` line; afterwards Spec clauses only, on the implementation's own states); that an entry's fate does not depend on the other entries is `tick_effect` in the model. "
                  "liveness is relative to ticks continuing; harness time shifting; Go map iteration order abstracted (outputs compared as "
                  "multisets, request-queue slots checked as subset + count)."),
     },
@@ -202,7 +202,7 @@ CHECKS.update({
                  "Window (11 min) and ticker (7 min) are extracted each run and pinned; the real loop is compared with the model on every queue "
                  "length and drained item across window-boundary (+-1 ns), fill-level, unknown-chain and random sessions, with the Spec evaluated "
                  "on its own behaviour."),
-        "note": ("Trusted: Lean kernel; harness clock/ticker substitution (period cross-checked with the value the loop passes to clock.Ticker), "
+        "note": ("Trusted: Lean kernel; harness clock/ticker substitution (period cross-checked with the value the loop passes to clock.Ticker),  One verdict is decided by a measured duration: cleanup-stalled-on-full-request-queue (the shorter of two successive full-queue ticks with four retransmissions due must stay below 1.5 s; pinned code 0 ms). "
                  "barrier synchronisation, driver ghost state; Go select/default semantics exercised not modelled; non-blocking of the Go code is "
                  "observed via 10 s timeouts; p2p stub needed to compile cmd/guardiand."),
     },
@@ -216,7 +216,7 @@ CHECKS.update({
                  "the lock, with the unrepaired code's violation as a proved witness. The real updateGuardianSets / GetGuardianSet / Push / "
                  "verifyVAA run against a fake JSON-RPC chain and are compared with the model; concurrent readers/writers run under -race and a "
                  "race report or a wrong/panicking lookup is a Spec violation."),
-        "note": ("Trusted: Lean kernel; harness and driver; ecrecover and Keccak as oracles; scheduling is modelled as interleaving, data-race "
+        "note": ("Trusted: Lean kernel; harness and driver; ecrecover and Keccak as oracles; scheduling is modelled as interleaving, data-race  Reordered guardian-set answers are produced by a fake node that waits 150 ms for further requests before answering held ones (decides whether a concurrent client is seen, never a verdict on the unchanged tree). "
                  "freedom is observed with -race, not proved; the explorer links the module-cache node version v0.0.0-20240818215257-cb0667c4f6c1 "
                  "(that is the code the harness runs), not /repo/node."),
     },
